@@ -96,6 +96,24 @@ def gen(tier, rng):
                         add(Case('boxed.mul_mod' + f, [to_limbs(a, n), to_limbs(b, n), to_limbs(po, n)], mop='boxed.mul_mod'))
             if kind == 'uint':
                 add(Case('uint.mul_mod_trait', [limbs(rng, n), limbs(rng, n), [0] * n]))
+            # products at the 2^BITS boundary: bit lengths that sum to BITS - 1, BITS, BITS + 1, BITS + 2 with all-ones /
+            # single-bit operands (a product of an m-bit and an n-bit number has m + n - 1 OR m + n bits)
+            Bt = 64 * n
+            for s_bits in (Bt - 1, Bt, Bt + 1, Bt + 2):
+                for i1 in sorted(set([1, 2, Bt // 2, Bt // 2 + 1, s_bits // 2, s_bits - 1, s_bits - 2, rng.randrange(1, Bt)])):
+                    i2 = s_bits - i1
+                    if not (1 <= i1 <= Bt - 1 and 1 <= i2 <= Bt - 1): continue
+                    for (a, b) in (((1 << i1) - 1, (1 << i2) - 1), (1 << (i1 - 1), 1 << (i2 - 1)), ((1 << i1) - 1, 1 << (i2 - 1))):
+                        for p in ((1 << Bt) - 1, (1 << Bt) - rng.choice([59, 159, 189, 3]), (1 << (Bt - 1)) + 1):
+                            if a >= p or b >= p: continue
+                            A, Bb, P = to_limbs(a, n), to_limbs(b, n), to_limbs(p, n)
+                            if kind == 'uint':
+                                add(Case('uint.mul_mod_vartime', [A, Bb, P]))
+                                add(Case('uint.mul_mod_trait', [A, Bb, P]))
+                                if n in MULMOD_NS and p % 2 == 1:
+                                    add(Case('uint.mul_mod', [A, Bb, P]))
+                            elif p % 2 == 1:
+                                add(Case('boxed.mul_mod', [A, Bb, P], mop='boxed.mul_mod'))
             # modular halving
             for i in range((24 if n <= 8 else 12) * scale):
                 M = 1 << (64 * n)
